@@ -233,7 +233,7 @@ class Analysis:
     def scope(self):
         """(functions, class names) the rules of this run depend on: the
         functions the rules named, the classes owning those functions and the classes whose attributes they touch."""
-        funcs = set(self.roots)     # direct: the over-approximate call graph (CHA, by-name) reaches most of the package from anywhere
+        funcs = set(self.roots) | set(self.prog.requested)     # direct: the over-approximate call graph (CHA, by-name) reaches most of the package from anywhere
         classes = set()
         for q in funcs:
             g = self.prog.functions.get(q)
